@@ -17,12 +17,12 @@
 #include <cstring>
 #include <memory>
 #include <string>
+#include <sys/mman.h>
 #include <vector>
 
 namespace c15
 {
     static const int NORET = -1000;
-    static const char *PROMPT = "$ ";
 
     inline std::string vis(const std::string &s)
     {
@@ -356,11 +356,120 @@ namespace c15
         }
     }
 
+    // ---- configuration of the terminal object: every public setter / flag is a dimension
+    struct TermCfg
+    {
+        int echo = 0;   // 0 default (on), 1 off after init, 2 off after init and no write callback registered,
+                        // 3 set off BEFORE init (init re-enables it), 4 set on after init
+        int prompt = 0; // 0 default "$ ", 1..5 set after init (lengths 0,1,2,3,8), 6 set BEFORE init (init resets it)
+        bool sigcb = true;  // signal callback registered
+        bool execcb = true; // execute callback registered
+        bool echo_on() const { return echo == 0 || echo == 3 || echo == 4; }
+        bool writecb() const { return echo != 2; }
+        const char *prompt_arg() const // what is handed to the setter (nullptr: setter not called)
+        {
+            static const char *t[] = {nullptr, "", ">", "# ", "ab>", "igris:> ", "xyz"};
+            return t[prompt];
+        }
+        const char *prompt_expected() const { return prompt >= 1 && prompt <= 5 ? prompt_arg() : "$ "; }
+        bool prompt_before_init() const { return prompt == 6; }
+        bool is_default() const { return echo == 0 && prompt == 0 && sigcb && execcb; }
+        std::string name() const
+        {
+            static const char *e[] = {"echo=default", "echo=off", "echo=off,no-write-cb", "echo=off-before-init", "echo=on-set"};
+            std::string n = e[echo];
+            if (prompt)
+                n += mc::fmt(",prompt%s='%s'", prompt == 6 ? "-before-init" : "", prompt_arg());
+            if (!sigcb)
+                n += ",no-signal-cb";
+            if (!execcb)
+                n += ",no-execute-cb";
+            return n;
+        }
+        int id() const { return ((echo * 7 + prompt) * 2 + (sigcb ? 1 : 0)) * 2 + (execcb ? 1 : 0); }
+    };
+    inline std::vector<TermCfg> all_term_cfgs()
+    {
+        std::vector<TermCfg> v;
+        for (int e = 0; e < 5; e++)
+            for (int p = 0; p < 7; p++)
+                for (int s = 1; s >= 0; s--)
+                    for (int x = 1; x >= 0; x--)
+                    {
+                        TermCfg c;
+                        c.echo = e;
+                        c.prompt = p;
+                        c.sigcb = s;
+                        c.execcb = x;
+                        v.push_back(c);
+                    }
+        return v;
+    }
+    // the configurations explored by BFS (a covering selection; the tree check cfg_matrix runs all 140)
+    inline const std::vector<TermCfg> &bfs_term_cfgs()
+    {
+        static std::vector<TermCfg> v;
+        if (v.empty())
+        {
+            auto add = [&](int e, int p, bool s, bool x) {
+                TermCfg c;
+                c.echo = e;
+                c.prompt = p;
+                c.sigcb = s;
+                c.execcb = x;
+                v.push_back(c);
+            };
+            for (int e = 1; e < 5; e++)
+                add(e, 0, true, true);
+            for (int p = 1; p < 7; p++)
+                add(0, p, true, true);
+            add(1, 1, true, true);
+            add(2, 2, true, true);
+            add(1, 5, false, true);
+            add(0, 0, false, true);
+            add(0, 0, true, false);
+            add(2, 4, false, false);
+            add(4, 5, false, true);
+            add(0, 1, true, false);
+        }
+        return v;
+    }
+    inline std::string cfg_suffix(const TermCfg *c) { return c && !c->is_default() ? " [" + c->name() + "]" : std::string(); }
+    // a C string in a read-only mapping, its terminator flush against an inaccessible page
+    struct ROString
+    {
+        unsigned char *base = nullptr;
+        size_t maplen = 0;
+        const char *p = nullptr;
+        explicit ROString(const char *src, size_t n) // n bytes are copied (include the terminator yourself)
+        {
+            size_t pg = 4096, body = ((n + pg - 1) / pg + 1) * pg;
+            maplen = body + pg;
+            base = (unsigned char *)mmap(nullptr, maplen, PROT_READ | PROT_WRITE, MAP_PRIVATE | MAP_ANONYMOUS, -1, 0);
+            char *d = (char *)base + body - n;
+            memcpy(d, src, n);
+            mprotect(base, body, PROT_READ);
+            mprotect(base + body, pg, PROT_NONE);
+            p = d;
+        }
+        ~ROString()
+        {
+            if (base)
+                munmap(base, maplen);
+        }
+        ROString(const ROString &) = delete;
+        ROString &operator=(const ROString &) = delete;
+    };
+
     struct Where
     {
         unsigned cap, hist;
         unsigned char c;
-        std::string str() const { return mc::fmt("cap=%u hist=%u byte %s", cap, hist, bytename(c).c_str()); }
+        const TermCfg *cfg = nullptr;
+        std::string str() const
+        {
+            return mc::fmt("cap=%u hist=%u%s byte %s", cap, hist, cfg_suffix(cfg).c_str(), bytename(c).c_str());
+        }
     };
 
     // ================================================================ layer 2: readline alone
@@ -373,7 +482,7 @@ namespace c15
         const std::string &pre;
         unsigned recent = 0; // last bytes typed (fallback key only)
 
-        ReadlineModel(unsigned cap_, unsigned hist_, bool /*keylevel*/ = false)
+        ReadlineModel(unsigned cap_, unsigned hist_, bool /*keylevel*/ = false, TermCfg /*unused*/ = TermCfg())
             : cap(cap_), hist(hist_), rl(cap_, hist_), pre(prefix(RL::flavour(), "readline"))
         {
             rf.init(cap, hist);
@@ -479,6 +588,12 @@ namespace c15
     // ================================================================ layer 3: terminal automaton
     struct Sink
     {
+        int sigcalls = 0, lastsig = 0;
+        void on_signal(int s)
+        {
+            sigcalls++;
+            lastsig = s;
+        }
         std::vector<std::string> exec;
         bool exec_unterminated = false;
         ref::Screen scr;
@@ -499,15 +614,35 @@ namespace c15
     template <class VT> struct VtermModel : mc::Model
     {
         unsigned cap, hist;
+        TermCfg cfg;
         Sink sink;
+        std::unique_ptr<Exact> pheap;
+        std::unique_ptr<ROString> prom;
         VT vt;
         ref::Editor rf;
         const std::vector<Sym> *symp;
         const std::string &pre;
+        std::string prompt; // what the screen must show in front of the line
         unsigned recent = 0; // last bytes typed (fallback key only)
 
-        VtermModel(unsigned cap_, unsigned hist_, bool keylevel)
-            : cap(cap_), hist(hist_), vt(cap_, hist_, &sink), pre(prefix(VT::flavour(), "vterm"))
+        // the prompt handed to the setter lives in an exactly-sized heap block (BFS) or in a read-only
+        // mapping (tree checks); declared before vt, which receives the pointer in its constructor
+        static const char *store_prompt(const TermCfg &c, bool ro, std::unique_ptr<Exact> &heap, std::unique_ptr<ROString> &rom)
+        {
+            const char *t = c.prompt_arg();
+            if (!t)
+                return nullptr;
+            if (ro)
+            {
+                rom.reset(new ROString(t, strlen(t) + 1));
+                return rom->p;
+            }
+            heap.reset(new Exact(t, strlen(t) + 1));
+            return heap->p;
+        }
+        VtermModel(unsigned cap_, unsigned hist_, bool keylevel, TermCfg cfg_ = TermCfg(), bool ro_prompt = false)
+            : cap(cap_), hist(hist_), cfg(cfg_), vt(cap_, hist_, &sink, cfg_, store_prompt(cfg_, ro_prompt, pheap, prom)),
+              pre(prefix(VT::flavour(), "vterm")), prompt(cfg_.prompt_expected())
         {
             rf.init(cap, hist);
             symp = keylevel ? &key_alphabet() : &raw_alphabet(true);
@@ -524,14 +659,32 @@ namespace c15
             recent = (recent << 8) | c;
             sink.exec.clear();
             sink.echoed.clear();
+            sink.sigcalls = 0;
             vt.feed(c);
             vt.init_step(); // the C++ flavour prints the next prompt only on the following call
             ref::Ev ev = c == 3 ? rf.ctrlc() : rf.feed((char)c);
             const char *cls = ref::evclass(rf, ev);
             mark(rf, ev, c, dec_before);
             report_outcome(rf, ev, cls);
-            Where w{cap, hist, c}; // formatted only when a violation is reported
+            Where w{cap, hist, c, &cfg}; // formatted only when a violation is reported
+            // Ctrl-C raises SIGINT through the signal callback, once, when one is registered
+            {
+                int wantsig = (c == 3 && cfg.sigcb) ? 1 : 0;
+                if (sink.sigcalls != wantsig || (wantsig && sink.lastsig != VT::sigint()))
+                {
+                    mc::violation(pre + "signal." + cls, "%s: signal callback called %d time(s) (last value %d), expected %d (SIGINT)",
+                                  w.str().c_str(), sink.sigcalls, sink.lastsig, wantsig);
+                    return false;
+                }
+            }
             // (a) lines handed to the execute callback
+            if (!cfg.execcb)
+            {
+                // no execute callback registered: nobody receives the line, the editor carries on
+                if (ev == ref::EV_NEWLINE)
+                    rf.newline_reset();
+            }
+            else
             if (ev == ref::EV_NEWLINE)
             {
                 if (sink.exec.empty())
@@ -595,6 +748,17 @@ namespace c15
             }
             // (without has_line the line and the cursor are observed through the screen row below and
             // through the execute callback only)
+            // echo off: nothing may be written at all
+            if (!cfg.echo_on())
+            {
+                if (!sink.echoed.empty())
+                {
+                    mc::violation(pre + "echo_off_output." + cls, "%s: echo is off but '%s' was written", w.str().c_str(),
+                                  vis(sink.echoed).c_str());
+                    return false;
+                }
+                return true;
+            }
             // (b) echo replayed on the screen model
             if (!sink.scr.bad.empty())
             {
@@ -608,8 +772,8 @@ namespace c15
                               vis(sink.echoed).c_str());
                 return false;
             }
-            std::string want = std::string(PROMPT) + rf.line.s; // <= 15 chars: no allocation
-            int wantcol = (int)strlen(PROMPT) + (int)rf.line.cur;
+            std::string want = prompt + rf.line.s; // <= 15 chars in the BFS layers: no allocation
+            int wantcol = (int)prompt.size() + (int)rf.line.cur;
             bool rowok = memcmp(sink.scr.row, want.data(), want.size()) == 0;
             for (size_t k = want.size(); rowok && k < (size_t)sink.scr.w; k++)
                 rowok = sink.scr.row[k] == ' ';
@@ -664,30 +828,54 @@ namespace c15
     // One universe per capacity; the first operation picks the history depth (1..3), so the three
     // configurations share the BFS levels (wider levels, far fewer fork phases). The engine's depth
     // bound therefore is 1 + the number of bytes/keys typed.
+    struct Variant
+    {
+        unsigned hist;
+        TermCfg cfg;
+        std::string name;
+    };
+    inline const std::vector<Variant> &hist_variants()
+    {
+        static std::vector<Variant> v;
+        if (v.empty())
+            for (unsigned h = 1; h <= 3; h++)
+                v.push_back({h, TermCfg(), mc::fmt("history_depth=%u", h)});
+        return v;
+    }
+    // terminal configurations (history depth 2) for the configuration universes
+    inline const std::vector<Variant> &cfg_variants()
+    {
+        static std::vector<Variant> v;
+        if (v.empty())
+            for (const TermCfg &c : bfs_term_cfgs())
+                v.push_back({2, c, c.name()});
+        return v;
+    }
     template <class M> struct PickHist : mc::Model
     {
         unsigned cap;
         bool keylevel;
-        unsigned hist = 0;
+        int chosen = -1;
         std::unique_ptr<M> in;
         const std::vector<Sym> *symp;
+        const std::vector<Variant> *vars;
         int nsym;
-        PickHist(unsigned cap_, bool keylevel_, const std::vector<Sym> *s)
-            : cap(cap_), keylevel(keylevel_), symp(s), nsym((int)s->size())
+        PickHist(unsigned cap_, bool keylevel_, const std::vector<Sym> *s, const std::vector<Variant> *v = &hist_variants())
+            : cap(cap_), keylevel(keylevel_), symp(s), vars(v), nsym((int)s->size())
         {
         }
-        // ops 0..nsym-1: the alphabet (enabled once configured); nsym..nsym+2: history depth 1..3
-        // (enabled only in the initial state). Names do not depend on the state.
-        int nops() override { return nsym + 3; }
-        std::string opname(int i) override { return i < nsym ? (*symp)[i].name : mc::fmt("history_depth=%d", i - nsym + 1); }
+        // ops 0..nsym-1: the alphabet (enabled once configured); nsym..: the configuration (history
+        // depth, terminal settings; enabled only in the initial state). Names do not depend on the state.
+        int nops() override { return nsym + (int)vars->size(); }
+        std::string opname(int i) override { return i < nsym ? (*symp)[i].name : (*vars)[i - nsym].name; }
         bool apply(int i) override
         {
             if (!in)
             {
                 if (i < nsym)
                     return false;
-                hist = (unsigned)(i - nsym) + 1;
-                in.reset(new M(cap, hist, keylevel));
+                chosen = i - nsym;
+                in.reset(new M(cap, (*vars)[chosen].hist, keylevel, (*vars)[chosen].cfg));
                 mc::outcome("config");
                 return true;
             }
@@ -700,7 +888,7 @@ namespace c15
             if (!in)
                 return "init";
             std::string k = in->key();
-            k += (char)('0' + hist);
+            k += (char)('0' + chosen);
             return k;
         }
     };
@@ -957,6 +1145,45 @@ namespace c15
         mc::outcome(mc::fmt("big.act%d.cap%u", act, bc.cap));
     }
 
+    // ================================================================ configuration matrix (tree shape)
+    // All 140 combinations of (echo setting x prompt setting x signal callback x execute callback),
+    // history depth 1 and 2, capacity 3, each with four scripted key sequences; the prompt given to
+    // the setter sits in a read-only mapping with its terminator against an inaccessible page. A
+    // second terminal with another configuration is alive and typed into between the steps (state
+    // shared between objects would show in one of the two).
+    template <class VT> void cfg_matrix_body()
+    {
+        static const std::vector<TermCfg> cfgs = all_term_cfgs();
+        static const char *scripts[] = {
+            "ab\rc\n\x1b[A\x1b[A\x1b[B\r\r\n",                   // lines, history walk, CR / CRLF
+            "ab\x1b[Dc\x03" "d\r\x03\x03" "a\n",                    // mid-line insert, Ctrl-C, Ctrl-C on an empty line
+            "abc\x08\x1b[D\x1b[3~\r\x1b\x03[A\x03\n",             // full line, BS, Delete, Ctrl-C inside an escape sequence
+            "a\rb\r\x1b[A\x1b[D\x1b[Ax\x1b[B\x03\x1b[A\r",       // recall from mid-line, Ctrl-C while browsing, recall again
+        };
+        const int NS = 4;
+        int c0 = mc::choose((int)cfgs.size() * 2);
+        int sc = mc::choose(NS);
+        TermCfg cfg = cfgs[c0 / 2];
+        unsigned hist = 1 + (unsigned)(c0 % 2);
+        mc::describe("vterm cap=3 hist=%u [%s] script %d (second terminal alive)", hist, cfg.name().c_str(), sc);
+        VtermModel<VT> m(3, hist, false, cfg, true);
+        TermCfg other = cfgs[(c0 / 2 * 37 + 11) % cfgs.size()];
+        VtermModel<VT> d(4, 2, false, other, true);
+        mc::crash_context("%scfg.crash", m.pre.c_str());
+        if (!cfg.is_default())
+            mc::nontrivial();
+        unsigned k = 0;
+        static const char decoy[] = "xy\x1b[D\x03z\r\x1b[A\n";
+        for (const char *p = scripts[sc]; *p; p++)
+        {
+            if (!m.step((unsigned char)*p))
+                return;
+            if (!d.step((unsigned char)decoy[k++ % (sizeof decoy - 1)]))
+                return;
+        }
+        mc::outcome(mc::fmt("cfg.%d.%d", cfg.id(), sc));
+    }
+
     struct Depth
     {
         int quick, thorough;
@@ -973,6 +1200,28 @@ namespace c15
         mc::add_check(f + "_big_sline", [] { big_sline_body<SL>(); });
         mc::add_check(f + "_big_readline", [] { big_term_body<ReadlineModel<RL>>(false); });
         mc::add_check(f + "_big_vterm", [] { big_term_body<VtermModel<VT>>(true); });
+        mc::add_check(f + "_cfg_matrix", [] { cfg_matrix_body<VT>(); });
+        {
+            // terminal configurations as the first operation of a BFS (history depth 2)
+            mc::BfsOpts o;
+            o.depth_quick = 1 + 8;
+            o.depth_thorough = 1 + 10;
+            o.max_states = 12000000;
+            mc::add_bfs(f + "_vterm_cfg_keys_cap3",
+                        [] {
+                            return std::unique_ptr<mc::Model>(
+                                new PickHist<VtermModel<VT>>(3, true, &key_alphabet(), &cfg_variants()));
+                        },
+                        o);
+            o.depth_quick = 1 + 5;
+            o.depth_thorough = 1 + 7;
+            mc::add_bfs(f + "_vterm_cfg_raw_cap2",
+                        [] {
+                            return std::unique_ptr<mc::Model>(
+                                new PickHist<VtermModel<VT>>(2, false, &raw_alphabet(true), &cfg_variants()));
+                        },
+                        o);
+        }
         for (unsigned cap = 2; cap <= 4; cap++)
         {
             mc::BfsOpts o;
